@@ -32,11 +32,11 @@ def rule_sort(ctx):
     OBJ, AXIS, ISS = P_('obj'), P_('axis'), P_('issorted')
     v = ('attr', ('sub', ('attr', OBJ, 'axes'), AXIS), 'values')
     hi, lo = ('sub', v, ('slice', const(1), T.CONST_NONE, T.CONST_NONE)), ('sub', v, ('slice', T.CONST_NONE, const(-1), T.CONST_NONE))
-    good_tests = [('call', ('attr', ('name', 'np'), 'all'), (('cmp', '>=', hi, lo),), ()), ('call', ('attr', ('name', 'np'), 'all'), (('cmp', '<=', lo, hi),), ())]
-    ev = run(ctx, fi, facts={('cmp', 'is', ISS, T.CONST_NONE): True})
+    good_tests = [('call', ('attr', ('name', 'np'), 'all'), (T.mkcmp('>=', hi, lo),), ()), ('call', ('attr', ('name', 'np'), 'all'), (T.mkcmp('<=', lo, hi),), ())]
+    ev = run(ctx, fi, facts={T.mkcmp('is', ISS, T.CONST_NONE): True})
     ok = True
     for p in ev.paths:
-        tests = [(a, pol) for a, pol in p.guards if a != ('cmp', 'is', ISS, T.CONST_NONE)]
+        tests = [(a, pol) for a, pol in p.guards if a != T.mkcmp('is', ISS, T.CONST_NONE)]
         if len(tests) == 0:
             if p.kind == 'return' and p.value == OBJ:
                 ctx.violated('R1', fi, 'return obj (no test)', 'with issorted=None the object is returned without testing whether its labels are non-decreasing: '
@@ -130,8 +130,8 @@ def rule_bookkeeping(ctx):
                 continue
             ok = newaxes[0] == 'comp' and newaxes[3][0][1] == ('attr', obj, 'axes') and newaxes[2][0] == 'ifexp' and newaxes[2][3] == newaxis \
                 and newaxes[2][2] == ('call', ('attr', ('elem', ('attr', obj, 'axes'), newaxes[3][0][0]), 'copy'), (), ()) \
-                and newaxes[2][1] in (('cmp', '!=', ('attr', ('elem', ('attr', obj, 'axes'), newaxes[3][0][0]), 'name'), ('attr', newaxis, 'name')),
-                                      ('cmp', '!=', ('attr', ('elem', ('attr', obj, 'axes'), newaxes[3][0][0]), 'name'), name))
+                and newaxes[2][1] in (T.mkcmp('!=', ('attr', ('elem', ('attr', obj, 'axes'), newaxes[3][0][0]), 'name'), ('attr', newaxis, 'name')),
+                                      T.mkcmp('!=', ('attr', ('elem', ('attr', obj, 'axes'), newaxes[3][0][0]), 'name'), name))
             if not ok:
                 ctx.violated('R2', fi, 'newaxes = ' + T.show(newaxes)[:160], 'N-d: the axis of the same name becomes Axis(values, name), the others are copied', node=p.node)
                 continue
@@ -209,8 +209,8 @@ def rule_weights(ctx):
         L, R = T.kw(ni, 'left'), T.kw(ni, 'right')
         li, ri = d['left_idx'], d['right_idx']
         # form A: coordinate comparison
-        formA = li in (('cmp', '<', NEWX, ('sub', OLDX, const(0))), ('cmp', '>', ('sub', OLDX, const(0)), NEWX)) and \
-            ri in (('cmp', '>', NEWX, ('sub', OLDX, const(-1))), ('cmp', '<', ('sub', OLDX, const(-1)), NEWX))
+        formA = li in (T.mkcmp('<', NEWX, ('sub', OLDX, const(0))), T.mkcmp('>', ('sub', OLDX, const(0)), NEWX)) and \
+            ri in (T.mkcmp('>', NEWX, ('sub', OLDX, const(-1))), T.mkcmp('<', ('sub', OLDX, const(-1)), NEWX))
         if formA:
             # the sentinels only need to be valid positions
             okA = True
@@ -225,7 +225,7 @@ def rule_weights(ctx):
                 ctx.violated('R4', fi, T.show(ni)[:140], 'the fill positions given to interp must be valid indices for every axis length >= 1', node=p.node)
         else:
             # form B: sentinel comparison  left_idx = newindices == L ; right_idx = newindices == R
-            okB = li == ('cmp', '==', ni, L) and ri == ('cmp', '==', ni, R)
+            okB = li == T.mkcmp('==', ni, L) and ri == T.mkcmp('==', ni, R)
             bad = None
             if okB:
                 for n in range(1, 7):
